@@ -151,7 +151,9 @@ func VerifC15_Follow() {
 	zzverif.Assume(c != '/' && c != '#' && c != ' ' && c != '\t' && c != '\n' && c != '\r')
 	k := zzverif.IntRange("restLen", 0, zzverif.Bound("rest", 1, 2))
 	rest := zzverif.Bytes("rest", k)
-	T := vJoin(S, []byte(nl), []byte(indent), []byte{c}, rest)
+	// blanks may trail the schema on its last line
+	trail := []string{"", " ", "\t "}[zzverif.IntRange("trail", 0, 2)]
+	T := vJoin(S, []byte(trail), []byte(nl), []byte(indent), []byte{c}, rest)
 	m, merr := New("t", T).Len()
 	zzverif.Assert(merr == nil, "Len() of the combined text succeeds")
 	zzverif.Assert(m == n, "what follows on a new line never moves the boundary")
